@@ -43,6 +43,17 @@ def _strip_bool(t):
 
 
 class _Expr(ast.NodeTransformer):
+    def visit_Expr(self, node):
+        self.generic_visit(node)
+        # C24: the statement setattr(x, 'name', v) is the assignment x.name = v (x a plain name / attribute chain)
+        c = node.value
+        if isinstance(c, ast.Call) and isinstance(c.func, ast.Name) and c.func.id == 'setattr' and len(c.args) == 3 and not c.keywords \
+                and isinstance(c.args[1], ast.Constant) and isinstance(c.args[1].value, str) and c.args[1].value.isidentifier() \
+                and _chain_text(c.args[0]) is not None:
+            tgt = ast.Attribute(value=c.args[0], attr=c.args[1].value, ctx=ast.Store())
+            return ast.fix_missing_locations(ast.copy_location(ast.Assign(targets=[tgt], value=c.args[2]), node))
+        return node
+
     def visit_If(self, node):
         node.test = _strip_bool(node.test)
         self.generic_visit(node)
